@@ -50,3 +50,19 @@ Theorem C07_code_layout : translated = true ->
    ++ [0; Z.of_nat p_npars; Z.of_nat p_npars; Z.of_nat (p_npars + s_npars - b2n volfrac_in_p)%nat; Z.of_nat (2 + s_npars)%nat])%Z.
 Proof. exact code_layout_is_model. Qed.
 Print Assumptions C07_code_layout.
+
+(* the three formula theorems above are about the CODE's combination: the tail of ProductKernel.Iq translated from the
+   current product.py on every run equals the model's combine for every number type and both flags *)
+From SM Require Import Gen.C07_combine.
+Theorem C07_code_combine : forall (T : Type) (O : Ops T) scale bg volfrac vp beta F Fsq S shell, combine_translated = true ->
+  code_combine O scale bg volfrac vp beta F Fsq S shell = combine O scale bg volfrac vp beta F Fsq S shell.
+Proof. exact code_combine_is_model. Qed.
+Print Assumptions C07_code_combine.
+Theorem C07_code_formula : forall scale bg volfrac beta F Fsq S shell, combine_translated = true -> shell <> 0%R ->
+  code_combine ROps scale bg volfrac false beta F Fsq S shell =
+  (scale * (volfrac / shell) * (if beta then Fsq + F * F * (S - 1) else Fsq * S) + bg)%R.
+Proof.
+  intros scale bg volfrac beta F Fsq S shell Ht Hs. rewrite (code_combine_is_model R ROps _ _ _ _ _ _ _ _ _ Ht).
+  destruct beta; [rewrite combine_beta by exact Hs; reflexivity | rewrite combine_plain by exact Hs; ring].
+Qed.
+Print Assumptions C07_code_formula.
